@@ -53,6 +53,7 @@ static void *t_refcount(void *arg)
 }
 
 static int spin_arrivals;
+static struct json_object *holder[MAXT];
 static void *t_release(void *arg)
 {
 	int me = (int)(intptr_t)arg, i;
@@ -60,6 +61,13 @@ static void *t_release(void *arg)
 		pthread_barrier_wait(&bar);             /* main has prepared shared[0] with NT references */
 		/* tighten the rendezvous: the kernel wakes barrier waiters microseconds apart, the window of a lost update is nanoseconds */
 		{ int target = (i + 1) * NT; __atomic_add_fetch(&spin_arrivals, 1, __ATOMIC_ACQ_REL); long spins = 0; while (__atomic_load_n(&spin_arrivals, __ATOMIC_ACQUIRE) < target) { if (++spins > 4000) sched_yield(); } }
+		if (holder[me]) {
+			/* this thread's reference is held by a container of its own (array element / object member): releasing the container releases the node through the
+			 * container's element-free path */
+			int before = __atomic_load_n(&cb_count[0], __ATOMIC_ACQUIRE);
+			json_object_put(holder[me]);
+			if (!before && __atomic_load_n(&cb_count[0], __ATOMIC_ACQUIRE)) __atomic_add_fetch(&winner[me], 1, __ATOMIC_RELAXED);
+		} else
 		if (json_object_put(shared[0])) { __atomic_add_fetch(&freed_reports, 1, __ATOMIC_RELAXED); __atomic_add_fetch(&winner[me], 1, __ATOMIC_RELAXED); }
 		pthread_barrier_wait(&bar);             /* main checks the round */
 	}
@@ -69,9 +77,14 @@ static void *t_release(void *arg)
 static void *t_disjoint(void *arg)
 {
 	int me = (int)(intptr_t)arg, i; char key[32];
+	/* per-thread configuration is part of "working on one's own things": every third thread gives ITSELF a double format; nobody else's output may change */
+	int mine = (me % 3) == 1 && json_c_set_serialization_double_format("%.2f", JSON_C_OPTION_THREAD) == 0;
 	pthread_barrier_wait(&bar);
 	for (i = 0; i < ITERS; i++) {
 		struct json_object *o = json_object_new_object(), *a = json_object_new_array(), *p, *c = NULL; int j; const char *s;
+		{ struct json_object *d = json_object_new_double(0.52381); const char *ds = json_object_to_json_string(d);
+		  if (strcmp(ds, mine ? "0.52" : "0.52381")) __atomic_add_fetch(&premature, 1, __ATOMIC_RELAXED);
+		  json_object_put(d); }
 		for (j = 0; j < 12; j++) { snprintf(key, sizeof key, "k%d_%d", me, j); json_object_object_add(o, key, json_object_new_int(j * me)); json_object_array_add(a, json_object_new_double(j * 0.5)); }
 		json_object_object_add(o, "arr", a);
 		s = json_object_to_json_string_ext(o, JSON_C_TO_STRING_PRETTY);
@@ -81,6 +94,7 @@ static void *t_disjoint(void *arg)
 		json_object_object_del(o, "k0_0"); snprintf(key, sizeof key, "k%d_3", me); json_object_object_del(o, key);
 		json_object_put(c); json_object_put(p); json_object_put(o);
 	}
+	if (mine) json_c_set_serialization_double_format(NULL, JSON_C_OPTION_THREAD);
 	return NULL;
 }
 
@@ -138,11 +152,17 @@ int main(int argc, char **argv)
 		for (i = 0; i < ITERS; i++) {
 			int k;
 			shared[0] = json_object_new_object(); json_object_set_userdata(shared[0], (void *)(intptr_t)0, del_cb);
-			for (k = 1; k < NT; k++) json_object_get(shared[0]);
+			for (k = 1; k < NT; k++) {
+				json_object_get(shared[0]);
+				if (NN == 2) {   /* container mode: holders 1.. keep their reference inside an array or an object of their own */
+					if (k & 1) { holder[k] = json_object_new_array(); json_object_array_add(holder[k], json_object_new_int(k)); json_object_array_add(holder[k], shared[0]); }
+					else { holder[k] = json_object_new_object(); json_object_object_add(holder[k], "before", json_object_new_int(k)); json_object_object_add(holder[k], "shared", shared[0]); }
+				}
+			}
 			__atomic_store_n(&freed_reports, 0, __ATOMIC_RELAXED); __atomic_store_n(&cb_count[0], 0, __ATOMIC_RELAXED);
 			pthread_barrier_wait(&bar);
 			pthread_barrier_wait(&bar);
-			k = __atomic_load_n(&freed_reports, __ATOMIC_RELAXED);
+			k = NN == 2 ? __atomic_load_n(&cb_count[0], __ATOMIC_RELAXED) : __atomic_load_n(&freed_reports, __ATOMIC_RELAXED);
 			if (k > 1) multi++; else if (k == 0) none++;
 			if (__atomic_load_n(&cb_count[0], __ATOMIC_RELAXED) != 1) cbbad++;
 		}
